@@ -204,7 +204,10 @@ def api_events(M, o):
     full = o["pm"][-1]
 
     def q(x, s):
-        return int(round(float(x) * s))
+        x = float(x)
+        if x != x or x in (math.inf, -math.inf):
+            return 0          # non-finite output: already reported by the direct comparison; keeps the trace well-typed
+        return int(round(x * s))
 
     ev.append({"op": "fields", "level": "api", "path": "stream", "R": [], "scale": 1000000,
                "gt": [int(x) for x in full[0]], "gpm": q(full[2][0], 1e6), "spm": q(full[3][0], 1e6),
@@ -529,9 +532,41 @@ def run_cli(ck, models, rnd, tier):
 
 
 # --------------------------------------------------------------------------- main
+def replay(ck, path):
+    """./check C03 --replay work/C03/violation-N.json : re-run exactly that instance through the real code and let
+    the trace spec decide (prints the verdict per output event)."""
+    with open(path) as fh:
+        rec = json.load(fh)
+    inst = rec["detail"].get("inst") or rec["detail"].get("case")
+    if inst is None:
+        print("replay: no instance in %s" % path)
+        sys.exit(2)
+    inst = dict(inst)
+    inst.setdefault("K", len(inst["H"]))
+    inst.setdefault("N", len(inst["H"][0]))
+    rr = pool.map_tasks("impl.c03", [{"op": "api", "insts": [inst], "all_flags": False}], mode="jit")[0]
+    if not rr["ok"]:
+        print("replay: implementation raised: %s" % rr["error"])
+        sys.exit(1)
+
+    class _M:
+        pass
+    _M.inst = inst
+    case = api_events(_M, rr["result"][0]["variants"]["freq"])
+    n, rej = validate_traces(ck, [case], "replay", expect_reject=True)
+    print("replay instance: %s" % json.dumps(inst))
+    print("implementation : %s" % json.dumps(rr["result"][0]["variants"]["freq"])[:1500])
+    for r in rej:
+        print("REJECT clause=%s event=%s" % (r["clause"], json.dumps(r["event"])[:600]))
+    print("replay verdict: %s" % ("VIOLATION" if rej else "accepted by TraceExactPosterior"))
+    sys.exit(1 if rej else 0)
+
+
 def main():
     ck = Check("C03")
     tier = ck.tier
+    if os.environ.get("VERIF_REPLAY"):
+        replay(ck, os.environ["VERIF_REPLAY"])
     rnd = random.Random(ck.seed)
     ck.rule = (
         "TLC enumerates every instance of the bounded grid (haplotype menu x read bags x ploidy x F x frequency "
